@@ -61,6 +61,7 @@ pub const SPEC: PropertySpec = PropertySpec {
         "fault.crash.rewrite.removed",
         "fault.crash.rewrite.created",
         "fault.crash.rewrite.synced",
+        "fault.crash.rewrite.renamed",
         "fault.crash.ledger.tmp.synced",
         "fault.crash.ledger.renamed",
         "fault.crash.manifest.tmp.synced",
@@ -167,6 +168,10 @@ fn gen_reopen_crashes(rng: &mut Rng, budget: &mut u32, avoid: bool) -> Vec<Crash
 
 impl Scenario for C10 {
     fn generate(rng: &mut Rng, tier: Tier, avoid: bool) -> Self {
+        // Both C10 defects that had an avoidance mode (idle-session LSN gap, crash inside the recovery
+        // rewrite) were repaired by `fix:` commits, so no run steers around them any more.
+        let _ = avoid;
+        let avoid = false;
         let sweep_den = if tier == Tier::Thorough { 25 } else { 12 };
         if rng.chance(1, sweep_den) {
             return sweep::generate(rng, tier, avoid);
@@ -407,6 +412,9 @@ fn simpler_points(p: &CrashPoint) -> Vec<CrashPoint> {
 /// Private unwinding payload = process death.
 struct CrashSignal;
 
+/// Temp file of an atomic recovery rewrite (ignored by segment scans: not a segment name).
+const REWRITE_TMP_REL: &str = "segments/.segment-rewrite.tmp";
+
 const TORN_NAMES: [&str; 6] = ["zero", "full", "inside", "header", "digest", "drop_unsynced"];
 
 #[derive(Clone, Debug)]
@@ -427,6 +435,8 @@ struct Tracker {
     in_rewrite: bool,
     /// Content of the rename target before the most recent temp write (None = absent).
     prev_target: Option<Option<Vec<u8>>>,
+    /// Content of the live segment when a recovery rewrite began (for an undone rewrite rename).
+    prev_segment: Option<Vec<u8>>,
     count: u32,
     target: Option<CrashPoint>,
     avoid: bool,
@@ -447,6 +457,7 @@ impl Tracker {
         self.last_append = None;
         self.in_rewrite = false;
         self.prev_target = None;
+        self.prev_segment = None;
     }
 
     fn rel(&self, p: &Path) -> String {
@@ -456,6 +467,9 @@ impl Tracker {
     /// Returns true when the process must die now (image already written).
     fn on_point(&mut self, kind: &str, path: &Path) -> bool {
         self.kinds.push(kind.to_owned());
+        if !kind.starts_with("rewrite.") {
+            self.in_rewrite = false;
+        }
         match kind {
             "seg.append.begin" => {
                 let rel = self.rel(path);
@@ -472,12 +486,29 @@ impl Tracker {
                 self.synced.retain(|rel, _| root.join(rel).exists());
             }
             "rewrite.created" => {
+                // Protocol-agnostic: a rewrite that recreates the segment in place leaves it empty here
+                // (nothing durable any more); one that builds a replacement beside it leaves it intact.
                 self.in_rewrite = true;
                 self.saw_rewrite = true;
-                self.synced.insert(disk::SEGMENT_REL.to_owned(), 0);
+                let seg = self.root.join(disk::SEGMENT_REL);
+                let len = disk::file_len(&seg);
+                let e = self.synced.entry(disk::SEGMENT_REL.to_owned()).or_insert(0);
+                *e = (*e).min(len);
+                self.prev_segment = std::fs::read(&seg).ok();
             }
             "rewrite.synced" => {
-                self.in_rewrite = false;
+                self.in_rewrite = true;
+                self.saw_rewrite = true;
+                if !self.root.join(REWRITE_TMP_REL).exists() {
+                    // in-place protocol: the rewritten segment itself was synced
+                    let len = disk::file_len(&self.root.join(disk::SEGMENT_REL));
+                    self.synced.insert(disk::SEGMENT_REL.to_owned(), len);
+                }
+            }
+            "rewrite.renamed" => {
+                // a synced replacement was renamed over the live segment
+                self.in_rewrite = true;
+                self.saw_rewrite = true;
                 let len = disk::file_len(&self.root.join(disk::SEGMENT_REL));
                 self.synced.insert(disk::SEGMENT_REL.to_owned(), len);
             }
@@ -489,9 +520,8 @@ impl Tracker {
             }
             _ => {}
         }
-        if self.avoid && self.in_rewrite {
-            return false;
-        }
+        // (Crashes inside the recovery rewrite window used to be avoided in avoidance mode while the
+        // rewrite lost committed history; repaired by a `fix:` commit, so they are always eligible.)
         if self.avoid && kind == "ledger.renamed" {
             // Avoidance: dying right after a fresh, still commit-less epoch became the ledger's
             // active epoch would create an idle session (DESIGN §9 item 6 shape).
@@ -565,6 +595,16 @@ impl Tracker {
                 if !cp.keep_rename {
                     b.truncate(keep);
                 }
+            }
+        } else if kind == "rewrite.renamed" {
+            // The rename is durable only after the directory sync: it may be kept or undone.
+            if !cp.keep_rename {
+                rename_undone = true;
+                let new = tree.remove(disk::SEGMENT_REL).unwrap_or_default();
+                if let Some(prev) = self.prev_segment.clone() {
+                    tree.insert(disk::SEGMENT_REL.to_owned(), prev);
+                }
+                tree.insert(REWRITE_TMP_REL.to_owned(), new);
             }
         } else if kind.ends_with(".renamed") && !cp.keep_rename {
             rename_undone = true;
